@@ -14,7 +14,8 @@ import sys
 sys.path.insert(0, os.path.join(os.path.dirname(os.path.abspath(__file__)), "..", "lib"))
 import vlib  # noqa
 
-BAD200 = ["flip", "short", "long", "cl_short", "cl_long", "chunked_flip", "chunked_short", "chunked_long"]
+BAD200 = ["flip", "short", "long", "cl_short", "cl_long", "chunked_flip", "chunked_short", "chunked_long",
+          "chunked_flip_err", "chunked_long_err", "chunked_ok_err"]
 RETRYABLE = ["connerr", "s408", "s429", "s500", "s502", "s503"]
 ALLKINDS = ["ok", "chunked_ok"] + BAD200 + RETRYABLE + ["s404", "s403"]
 
